@@ -69,6 +69,32 @@ for en, (lit, use) in ELEMS.items():
     P['ct_arr%s_glob' % en] = 'let arr = %s\nfn dsp(a:float)->float{\n  %s\n}\n' % (lit, use % 'arr[a]')
     P['ct_arr%s_cnt' % en] = 'let arr = %s\nfn counter(){\n  self + 1\n}\nfn dsp(a:float)->float{\n  %s\n}\n' % (lit, use % 'arr[counter() - 1 + a]')
     P['ct_arr%s_oor' % en] = 'fn dsp(a:float)->float{\n  let arr = %s\n  %s\n}\n' % (lit, (use % 'arr[5]') + ' + a')
+# a stateful call in every expression position, followed by a second stateful site (so that a wrong layout makes them overlap)
+CNT = 'fn cnt(x:float){\n  self + x\n}\nfn lp(x:float){\n  x * 0.5 + self * 0.5\n}\n'
+POS = {
+    'idx': 'let t = [10.0, 20.0, 30.0, 40.0]\n  t[cnt(1.0)]',
+    'arrlit': 'let t = [cnt(1.0), 2.0, a]\n  t[1.0] + t[0.0]',
+    'tuple': 'let t = (cnt(1.0), a)\n  t.0 + t.1',
+    'arg': 'max(cnt(1.0), a)',
+    'binl': 'cnt(1.0) * a',
+    'binr': 'a - cnt(1.0)',
+    'cond': 'if (cnt(1.0) - 2.0) a else 0.5',
+    'scrut': 'match cnt(1.0) {\n    1 => a\n    2 => 5.0\n    _ => 0.25\n  }',
+    'memarg': 'mem(cnt(1.0))',
+    'delayarg': 'delay(3.0, cnt(1.0), 1.0)',
+    'delaytime': 'delay(4.0, a, cnt(1.0))',
+    'nestedarg': 'lp(cnt(a))',
+    'cmp': 'cnt(1.0) > a',
+    'neg': '-cnt(1.0)',
+}
+for k, e in POS.items():
+    P['st_pos_%s' % k] = CNT + 'fn pick(a:float){\n  %s\n}\nfn dsp(a:float)->(float,float){\n  let p = pick(a)\n  let q = cnt(100.0)\n  (p, q)\n}\n' % e
+# identifiers that only differ before name mangling (module paths use `$` internally, backends sanitise names)
+P['ct_modclash'] = 'mod util {\n  pub fn gain(x:float){\n    x * 2.0\n  }\n}\nfn util_gain(x:float){\n  x + 3.0\n}\nfn dsp(a:float)->float{\n  util::gain(a) + util_gain(a) * 10.0\n}\n'
+P['ct_modstate'] = 'mod osc {\n  pub fn cnt(x:float){\n    self + x\n  }\n}\nfn osc_cnt(x:float){\n  self * 0.5 + x\n}\nfn dsp(a:float)->float{\n  osc::cnt(a) + osc_cnt(a) * 10.0\n}\n'
+P['ct_namelike'] = 'fn lambda_0(x:float){\n  x + 1.0\n}\nfn dsp_(x:float){\n  x * 2.0\n}\nfn _mimium_x(x:float){\n  x - 1.0\n}\nfn dsp(a:float)->float{\n  let f = |x| x * 3.0\n  f(lambda_0(a)) + dsp_(a) + _mimium_x(a)\n}\n'
+P['ct_tuplearr'] = 'fn dsp(a:float)->float{\n  let t = ([1.0, 2.0, 3.0], 5.0)\n  t.0[a] + t.1\n}\n'
+P['ct_blocklet'] = 'fn dsp(a:float)->float{\n  let x = 1.0\n  let y = {\n    let x = a * 2.0\n    x + 1.0\n  }\n  x + y * 10.0\n}\n'
 # ---- G_cls --------------------------------------------------------------------------------------------------
 P['cl_hof'] = 'fn apply(f:(float)->float, x:float){\n  f(x)\n}\nfn dsp(a:float)->float{\n  apply(|x| x * 3.0, a)\n}\n'
 P['cl_capture'] = 'fn dsp(a:(float,float))->float{\n  let k = a.0\n  let f = |x| x * k + 1.0\n  f(a.1)\n}\n'
